@@ -8,6 +8,7 @@ package main
 // below the entry allocation counter.
 
 import (
+	"go/token"
 	"go/types"
 
 	"golang.org/x/tools/go/ssa"
@@ -47,6 +48,58 @@ func (vc *VC) freshOnly(v ssa.Value, seen map[ssa.Value]bool) bool {
 		if bi, ok := x.Call.Value.(*ssa.Builtin); ok && bi.Name() == "append" {
 			return vc.freshOnly(x.Call.Args[0], seen)
 		}
+	case *ssa.Extract:
+		if l, ok := x.Tuple.(*ssa.Lookup); ok && x.Index == 0 {
+			return vc.freshOnly(l, seen)
+		}
+	case *ssa.Lookup:
+		// a value looked up in a map allocated by this activation is fresh if every value this
+		// function ever puts into a map of that type is fresh (absent keys yield the zero value)
+		mt, ok := x.X.Type().Underlying().(*types.Map)
+		if !ok || !vc.freshOnly(x.X, seen) {
+			return false
+		}
+		hn, _, _ := vc.mapHeapName(mt)
+		for _, b := range vc.fn.Blocks {
+			for _, in := range b.Instrs {
+				for _, w := range vc.instrWrites(in) {
+					if w.heap != hn {
+						continue
+					}
+					mu, ok := in.(*ssa.MapUpdate)
+					if !ok || !vc.freshOnly(mu.Value, seen) {
+						return false
+					}
+				}
+			}
+		}
+		return true
+	case *ssa.UnOp:
+		// a reference loaded from an object allocated by this activation is fresh if every value this
+		// function ever stores into that heap is fresh (the object starts out zeroed)
+		if x.Op != token.MUL {
+			return false
+		}
+		base := vc.addrBase(x.X)
+		if !vc.freshOnly(base, seen) {
+			return false
+		}
+		mod := map[string]bool{}
+		vc.addrHeap(x.X, mod)
+		for _, b := range vc.fn.Blocks {
+			for _, in := range b.Instrs {
+				for _, w := range vc.instrWrites(in) {
+					if !mod[w.heap] {
+						continue
+					}
+					st, ok := in.(*ssa.Store)
+					if !ok || !vc.freshOnly(st.Val, seen) {
+						return false
+					}
+				}
+			}
+		}
+		return true
 	}
 	return false
 }
